@@ -154,7 +154,9 @@ def postprocess (f : FieldSpec) (raw : Val) : PostOut :=
   | false, .literal vals =>
     match raw with
     | .sc (.str s) =>
-      match vals.find? (fun v => literalName v = some s) with
+      -- `choice_dict = {str(v): v for v in choices}` (field_wrapper.py:891): of two values with the
+      -- same name (`Literal["0", 0]`) the LAST one wins
+      match vals.reverse.find? (fun v => literalName v = some s) with
       | some v => .ok (.sc v)
       | none => .raise "KeyError".toList
     | v => .ok v
